@@ -59,6 +59,8 @@ fn main() {
         "C06" => run_property(&props::c06::C06, &args),
         "C07" => run_property(&props::c07::C07, &args),
         "C08" => run_property(&props::c08::C08, &args),
+        "C09" => run_property(&props::c09::C09, &args),
+        "C11" => run_property(&props::c11::C11, &args),
         "C20" => run_property(&props::c20::C20, &args),
         x => {
             eprintln!("unknown property {}", x);
